@@ -300,6 +300,14 @@ void
 PPL::Polyhedron::limited_H79_extrapolation_assign(const Polyhedron& y,
                                                   const Constraint_System& cs,
                                                   unsigned* tp) {
+  // `cs' may be (a reference to) the constraint system of `*this' or of `y'
+  // (e.g., as returned by constraints()): these systems are minimized below,
+  // which would invalidate the rows of `cs'.  Work on a copy in that case.
+  if (&cs == &con_sys || &cs == &y.con_sys) {
+    const Constraint_System cs_copy(cs);
+    limited_H79_extrapolation_assign(y, cs_copy, tp);
+    return;
+  }
   Polyhedron& x = *this;
 
   const dimension_type cs_num_rows = cs.num_rows();
@@ -386,6 +394,14 @@ void
 PPL::Polyhedron::bounded_H79_extrapolation_assign(const Polyhedron& y,
                                                   const Constraint_System& cs,
                                                   unsigned* tp) {
+  // `cs' may be (a reference to) the constraint system of `*this' or of `y'
+  // (e.g., as returned by constraints()): these systems are minimized below,
+  // which would invalidate the rows of `cs'.  Work on a copy in that case.
+  if (&cs == &con_sys || &cs == &y.con_sys) {
+    const Constraint_System cs_copy(cs);
+    bounded_H79_extrapolation_assign(y, cs_copy, tp);
+    return;
+  }
   Rational_Box x_box(*this, ANY_COMPLEXITY);
   const Rational_Box y_box(y, ANY_COMPLEXITY);
   x_box.CC76_widening_assign(y_box);
@@ -840,6 +856,14 @@ PPL::Polyhedron
 ::limited_BHRZ03_extrapolation_assign(const Polyhedron& y,
                                       const Constraint_System& cs,
                                       unsigned* tp) {
+  // `cs' may be (a reference to) the constraint system of `*this' or of `y'
+  // (e.g., as returned by constraints()): these systems are minimized below,
+  // which would invalidate the rows of `cs'.  Work on a copy in that case.
+  if (&cs == &con_sys || &cs == &y.con_sys) {
+    const Constraint_System cs_copy(cs);
+    limited_BHRZ03_extrapolation_assign(y, cs_copy, tp);
+    return;
+  }
   Polyhedron& x = *this;
   const dimension_type cs_num_rows = cs.num_rows();
   // If `cs' is empty, we fall back to ordinary, non-limited widening.
@@ -928,6 +952,14 @@ PPL::Polyhedron
 ::bounded_BHRZ03_extrapolation_assign(const Polyhedron& y,
                                       const Constraint_System& cs,
                                       unsigned* tp) {
+  // `cs' may be (a reference to) the constraint system of `*this' or of `y'
+  // (e.g., as returned by constraints()): these systems are minimized below,
+  // which would invalidate the rows of `cs'.  Work on a copy in that case.
+  if (&cs == &con_sys || &cs == &y.con_sys) {
+    const Constraint_System cs_copy(cs);
+    bounded_BHRZ03_extrapolation_assign(y, cs_copy, tp);
+    return;
+  }
   Rational_Box x_box(*this, ANY_COMPLEXITY);
   const Rational_Box y_box(y, ANY_COMPLEXITY);
   x_box.CC76_widening_assign(y_box);
